@@ -55,6 +55,8 @@ type c07Inst struct {
 	dead    bool
 	outcome string
 	scratch c07Scratch
+	lastLA  int          // largest acknowledged of the ACK the last getAck returned (-1: none)
+	wired   *c07WiredInst // set in the "wired" part: a real sentPacketHandler derives the threshold
 }
 
 func newC07Inst(cfg *c07Cfg) *c07Inst {
@@ -241,6 +243,15 @@ func (in *c07Inst) recv(op explore.Op) *explore.Fail {
 	// the packet's frames are handled before ReceivedPacket is called
 	fresh := !s.all.has(pn)
 	switch {
+	case op.D >= c07PeerAckBase:
+		// the packet carries an ACK frame of the peer: the real sentPacketHandler processes it
+		// and raises the threshold through its ignorePacketsBelow callback (c07_wired_test.go)
+		if dead := in.wired.peerAck(op.D - c07PeerAckBase); dead {
+			in.dead = true
+			in.outcome = tag + "+peer-ack/error(ReceivedAck failed)"
+			return nil
+		}
+		tag += in.wired.ackTag
 	case op.D > 0:
 		in.h.IgnorePacketsBelow(protocol.PacketNumber(op.D))
 		s.forget(op.D)
@@ -302,6 +313,7 @@ func (in *c07Inst) getAck(si int, onlyIfQueued bool) *explore.Fail {
 	must, why := in.mustHaveAck(si)
 	f := in.h.GetAckFrame(enc, in.now, onlyIfQueued)
 	tag := "ack/" + s.name + "/q=" + strconv.FormatBool(onlyIfQueued)
+	in.lastLA = -1
 	if f == nil {
 		if must {
 			return explore.Failf("ack-not-returned/"+s.name+"/"+why, "GetAckFrame(%s, onlyIfQueued=%v) returned nil although an ACK is due (%s)", enc, onlyIfQueued, why)
@@ -326,6 +338,7 @@ func (in *c07Inst) getAck(si int, onlyIfQueued bool) *explore.Fail {
 		why = "nothing-pending"
 	}
 	s.ackGenerated(ranges)
+	in.lastLA = int(ranges[0].Largest)
 	nr := len(ranges)
 	if nr > 3 {
 		nr = 3
